@@ -61,9 +61,15 @@ Inductive stmt :=
 | SPanic (arg : expr)
 | SContinue                                         (* continue (of THIS loop: unlabelled, not inside a nested loop) *)
 | SSort (s : string) (c : comparator)               (* a sort of the slice s (see [comparator]) *)
-| SOther (text : string).                           (* everything else (assignment to an existing variable, ++, +=,
+| SOther (text : string)                            (* everything else (assignment to an existing variable, ++, +=,
                                                        break, continue, goto, defer, go, delete, calls as statements,
                                                        nested loops, ...) — never classified *)
+| SFill (s : string) (i : string) (val : expr).     (* s[i] = val; i++   — emitted ONLY when the translator established that
+                                                       s is created in the function as make([]T, len(<the ranged map>)),
+                                                       that i is defined as i := 0 before the loop and is written by
+                                                       nothing but this i++, and that i is read nowhere else in the body:
+                                                       filling a slice of exactly len(map) zero elements by a counter
+                                                       from 0 produces the slice that append onto an empty one produces *)
 
 (** one [range]-over-map statement: [for kvar, vvar := range ranged { body }], followed in its block by [after]
     (the statements up to the end of the enclosing block; only its head is looked at) *)
@@ -113,6 +119,7 @@ Fixpoint stmt_tree (s : stmt) (k : tree) : option tree :=
       opt_bind (list_tree_with stmt_tree thn k) (fun a => opt_bind (list_tree_with stmt_tree els k) (fun b => Some (TIf c a b)))
   | SSort _ _ => None
   | SOther _ => None
+  | SFill x _ v => match k with TSkip => Some (TAppend x v) | _ => None end
   end.
 
 Definition to_tree (l : list stmt) : option tree := list_tree_with stmt_tree l TSkip.
@@ -271,6 +278,23 @@ Fixpoint tree_returns (t : tree) : list (list expr) :=
   | _ => []
   end.
 
+Fixpoint strs_eqb (a b : list string) : bool :=
+  match a, b with
+  | [], [] => true
+  | x :: a', y :: b' => String.eqb x y && strs_eqb a' b'
+  | _, _ => false
+  end.
+
+Definition expr_eqb (a b : expr) : bool :=
+  String.eqb (e_text a) (e_text b) && strs_eqb (e_reads a) (e_reads b) && strs_eqb (e_calls a) (e_calls b).
+
+Fixpoint exprs_eqb (a b : list expr) : bool :=
+  match a, b with
+  | [], [] => true
+  | x :: a', y :: b' => expr_eqb x y && exprs_eqb a' b'
+  | _, _ => false
+  end.
+
 Definition mem (x : string) (l : list string) : bool := existsb (String.eqb x) l.
 Definition disjoint (a b : list string) : bool := forallb (fun x => negb (mem x b)) a.
 
@@ -306,7 +330,7 @@ Definition tree_wf (kvar vvar : string) (ranged : expr) (t : tree) : bool :=
 Inductive shape :=
 | ShStore      (* leaves: skip / store / panic.  Result = the maps written (or the panic); independent of the order when
                   entries that write the same key of the same map write the same value (premise [store_consistent]) *)
-| ShSearch     (* leaves: skip / ONE return whose expressions read no loop or let variable.  Result = "some entry
+| ShSearch     (* leaves: skip / returns that all return the SAME expressions, which read no loop or let variable.  Result = "some entry
                   returns" *)
 | ShCollectSort (slice : string) (c : comparator).
                (* leaves: skip / append to ONE slice, and the statement right after the loop sorts that slice: the
@@ -384,8 +408,10 @@ Definition classify_tree (kvar vvar : string) (ranged : expr) (after : list stmt
     if negb ap && negb rt then Some ShStore                     (* skip / store / panic *)
     else if rt && negb st && negb ap && negb pn then
       match tree_returns t with
-      | [vs] => if forallb (fun e => disjoint (e_reads e) (kvar :: vvar :: tree_lets t)) vs then Some ShSearch else None
-      | _ => None
+      | vs :: others =>
+          if forallb (exprs_eqb vs) others &&
+             forallb (fun e => disjoint (e_reads e) (kvar :: vvar :: tree_lets t)) vs then Some ShSearch else None
+      | [] => None
       end
     else if ap && negb st && negb rt && negb pn && all_same (tree_writes t) then
       match tree_writes t, after with
